@@ -45,21 +45,23 @@ AREAS = {
 
 # n -> (areas whose TU contains the construct, one line); notes/api_probe.md has reproducer, classification and proposed fix
 KNOWN = {
-    1: (['util'], 'util/cast.hpp is not self-contained (YACLIB_ASSERT without log.hpp)'),
-    2: (['shared'], 'SharedFutureOn hides the inherited Subscribe(IExecutor&, Func&&)'),
-    3: (['when'], 'heterogeneous WhenAll<FirstFail> default-constructs its output tuple'),
-    4: (['when2'], 'heterogeneous WhenAny with a void input forms std::variant<void, ...>'),
-    5: (['async', 'when'], 'a value type that is a container of a move-only type (result of WhenAll over move-only futures) cannot be instantiated'),
-    6: (['mutex'], 'guards of SharedMutex: Unlock() / UnlockOn(e) forward to members SharedMutex does not have'),
-    7: (['shared'], 'AsyncSharedContract(f) returns SharedFutureOn instead of SharedFuture'),
+    # 1, 2, 4, 7 were fixed in /repo (b3ff916, a50f9bd, 3ec8b78, dfc7662): their constructs are part of the regular matrix now
+    3: (['when'], 'heterogeneous WhenAll<FirstFail> default-constructs its output tuple (open observation)'),
+    5: (['async', 'when'], 'a value type that is a container of a move-only type (result of WhenAll over move-only futures) cannot be '
+                           'instantiated (open observation)'),
+    6: (['mutex'], 'guards of SharedMutex: Unlock() / UnlockOn(e) forward to members SharedMutex does not have (open observation)'),
 }
 
 # property -> the areas its check compiles (see the docstring; wired into checks/Cxx.py with `apiprobe.stage(res, 'Cxx', tier)`)
 PROPERTY_AREAS = {
+    'C01': ['async'],          # Future / Promise / Contract / Connect (same cache entries as C02's)
     'C02': ['util', 'exe', 'async', 'then', 'then2', 'lazy'],  # pipeline / async APIs
+    'C05': ['exe'],            # executors, Submit
     'C06': ['shared'],
     'C09': ['when', 'when2'],  # WhenAll; Join is in when2
     'C10': ['when2'],          # WhenAny
+    'C11': ['async', 'shared'],  # Wait / WaitFor / WaitUntil: unique forms in async, shared forms in shared
+    'C12': ['lazy'],           # Task, Schedule, LazyContract
     'C13': ['coro'],
     'C14': ['mutex'],
     'C15': ['mutex'],
